@@ -20,9 +20,23 @@ def run_schedule(sched, t_extra=5):
     lst = {n: sdenv.ClientL(st.rec, n) for n in LSTS}
     d = st.prot.discovery
 
+    class NestL(sdenv.ClientL):
+        """a listener that reacts to its first offer by registering a further (watch-all) listener from inside the callback"""
+        def __init__(self, rec, name, other):
+            super().__init__(rec, name)
+            self.other = other
+
+        def service_offered(self, service, source):
+            super().service_offered(service, source)
+            if self.other:
+                other, self.other = self.other, None
+                st.call({"op": "watch", "lst": other, "flt": "ALL"}, d.watch_all_services, lst[other])
+
     def do(inp):
         op = inp["op"]
-        ev = {k: v for k, v in inp.items() if k not in ("t", "j")}
+        ev = {k: v for k, v in inp.items() if k not in ("t", "j", "nest")}
+        if op == "watch" and inp.get("nest"):
+            lst[inp["lst"]] = NestL(st.rec, inp["lst"], inp["nest"])
         if op == "rx":
             st.rx(ev)
         elif op == "watch":
@@ -168,6 +182,29 @@ def unwatched_gap_traces():
     return out
 
 
+def nested_registration_traces():
+    """a listener registers another listener from inside its service_offered callback: the new one hears about that very offer
+    (or not), but it is never told `stopped` for something it was not told `offered`"""
+    from ..monpass import add_adv
+    out = []
+    for flt in ("F2", "F1"):       # (L1 itself under a filter: registering a watch-all listener from inside a watch-all callback mutates the set being iterated -- RuntimeError in the library, outside the statement)
+        for ttl in (2, FOREVER):
+            for end in ("stop", "expire", "reboot", "connlost"):
+                sched = [{"t": 0, "j": 0, "op": "watch", "lst": "L1", "flt": flt, "nest": "L3"},
+                         {"t": 1, "j": 0, "op": "rx", "src": "a1", "mc": True, "sid": 4, "rb": True, "uc": True,
+                          "es": [{"ty": "offer", "svc": "s1", "ttl": ttl, "opts": []}]}]
+                if end == "stop":
+                    sched.append({"t": 2, "j": 0, "op": "rx", "src": "a1", "mc": True, "sid": 5, "rb": True, "uc": True,
+                                  "es": [{"ty": "offer", "svc": "s1", "ttl": 0, "opts": []}]})
+                elif end == "reboot":
+                    sched.append({"t": 2, "j": 0, "op": "rx", "src": "a1", "mc": True, "sid": 1, "rb": True, "uc": True, "es": []})
+                elif end == "connlost":
+                    sched.append({"t": 2, "j": 0, "op": "connlost"})
+                ev, missed = run_schedule(sched, t_extra=4)
+                out.append({"cfg": mon_cfg(), "ev": add_adv(ev), "sched": sched, "missed": missed})
+    return out
+
+
 def random_traces(seed, count, length):
     from ..monpass import add_adv
     traces = []
@@ -245,7 +282,7 @@ def check(ctx):
             runs.append((name, r.distinct, r.generated))
     # Mode 3: monitor verdict on executions of the real code
     n, length = ctx.pick((300, 14), (4000, 24))
-    traces = random_traces(ctx.seed, n, length) + crowd_traces() + unwatched_gap_traces()
+    traces = random_traces(ctx.seed, n, length) + crowd_traces() + unwatched_gap_traces() + nested_registration_traces()
     if any(t["missed"] for t in traces):
         ctx.note("schedule positions missed in %d traces" % sum(bool(t["missed"]) for t in traces))
     bad, mstates = judge(ctx, traces, "random histories")
